@@ -379,14 +379,12 @@ def daily_rules(t):
         res.append(UNSPEC)
     else:
         if fbs is not None:
-            if _isnum(fbs) and fbs <= 0:
-                res.append(INVALID)
             if aft is None:
                 res.append(INVALID)
         elif aft is not None:
             res.append(INVALID)
-    if fbs is not None and _isnum(fbs) and fbs <= 0:
-        res.append(INVALID)
+    if fbs is not None and _isnum(fbs) and not fbs > 0:
+        res.append(INVALID)  # must be > 0 (written positively: NaN is not > 0)
     isp, alg = t["initial_step_percentage"], t["algorithm_choice"]
     if isp is not None:
         if _isnum(isp) and not (0 < isp <= 0.5):
